@@ -2,7 +2,7 @@
    codec theorems of Cbor_proofs.v. *)
 From Coq Require Import List NArith ZArith Lia Bool Arith.
 From Coq Require Import ZifyN ZifyNat ZifyBool.
-Require Import V.base.Bytes V.gen.SerdeConsts V.model.Cbor V.model.Schema V.proofs.Cbor_proofs.
+Require Import V.base.Bytes V.gen.SerdeConsts V.gen.SerdeDtos V.model.Cbor V.model.Schema V.proofs.Cbor_proofs.
 Import ListNotations.
 Local Open Scope N_scope.
 
@@ -338,6 +338,113 @@ Proof.
   repeat split; try assumption.
   apply memN_In. assumption.
 Qed.
+
+(* feldman.NewVerificationVector: a non-empty column vector *)
+Theorem vv_valid_spec : forall c x,
+  valid (TFeldmanVV c) x = true ->
+  let m := fld k_verification_vector x in
+  int_of (fld k_cols m) = 1%Z /\ (0 < int_of (fld k_rows m))%Z /\
+  lenZ (arr_of (fld k_data m)) = int_of (fld k_rows m).
+Proof.
+  intros c x H. unfold valid in H. cbn [rules_of] in H. unfold vv_rules in H.
+  apply forallb_app_true in H. destruct H as [Hm Hc]. unfold matrix_rules in Hm.
+  apply forallb_app_true in Hm. destruct Hm as [Hm _]. cbn [forallb snd] in Hm, Hc. cbv zeta.
+  repeat (apply andb_true_iff in Hm; destruct Hm as [? Hm]).
+  repeat (apply andb_true_iff in Hc; destruct Hc as [? Hc]).
+  repeat match goal with Ha : (_ && _) = true |- _ => apply andb_true_iff in Ha; destruct Ha end.
+  repeat match goal with
+         | He : (_ =? _)%Z = true |- _ => apply Z.eqb_eq in He
+         | He : (_ <? _)%Z = true |- _ => apply Z.ltb_lt in He
+         end.
+  repeat split; try assumption; lia.
+Qed.
+
+(* cnf.NewCNFAccessStructure / normaliseCNF: at least one set, no empty set, no shareholder 0,
+   at least two shareholders overall; and (established by normalisation) the sets form an
+   antichain and the shareholder set is their union *)
+Theorem cnf_valid_spec : forall x,
+  valid TCnf x = true ->
+  let d := untag x in
+  let sets := map keys_of (arr_of (fld k_maximal_unqualified_sets d)) in
+  sets <> [] /\ Forall (fun s => s <> [] /\ ~ In 0 s) sets /\ 2 <= len (dedupN (List.concat sets)) /\
+  antichain_from [] sets = true /\
+  seteqN (keys_of (fld k_shareholders d)) (dedupN (List.concat sets)) = true.
+Proof.
+  intros x H. unfold valid in H. cbn [rules_of] in H. unfold cnf_rules in H.
+  cbn [forallb snd] in H. cbv zeta.
+  repeat (apply andb_true_iff in H; destruct H as [? H]).
+  set (sets := map keys_of (arr_of (fld k_maximal_unqualified_sets (untag x)))) in *.
+  repeat match goal with Hn : negb _ = true |- _ => apply negb_true_iff in Hn end.
+  split; [|split; [|split; [|split]]]; try assumption.
+  - intros E. rewrite E in *. cbn in *. discriminate.
+  - apply Forall_forall. intros s Hin. split.
+    + match goal with Hf : forallb (fun s => negb (len s =? 0)) sets = true |- _ =>
+        rewrite forallb_forall in Hf; specialize (Hf _ Hin) end.
+      intros E. subst s. cbn in *. discriminate.
+    + match goal with Hf : forallb (fun s => negb (memN 0 s)) sets = true |- _ =>
+        rewrite forallb_forall in Hf; specialize (Hf _ Hin) end.
+      intros Hz. apply memN_In in Hz. rewrite Hz in *. discriminate.
+  - apply N.leb_le. assumption.
+Qed.
+
+(* ------------------------------------------------------------------ *)
+(* the field lists of the hand-written schemas are exactly the wire field names (and omitempty
+   flags) of the DTO structs as regenerated from the source (gen/SerdeDtos.v) *)
+
+Definition s_untag (s : schema) : schema := match s with STagged _ s' => s' | _ => s end.
+Definition struct_fields (s : schema) : list (bytes * bool) :=
+  match s_untag s with
+  | SStruct fs => map (fun f : bytes * (bool * schema) => (fst f, fst (snd f))) fs
+  | SNode => map (fun f : bytes * (bool * schema) => (fst f, fst (snd f)))
+                 (match node_schema with SStruct fs => fs | _ => [] end)
+  | _ => []
+  end.
+Definition s_field (nm : bytes) (s : schema) : schema :=
+  match s_untag s with
+  | SStruct fs => match lookup_field fs nm with Some (_, s') => s' | None => SAny end
+  | _ => SAny
+  end.
+Definition s_elem (s : schema) : schema := match s with SList s' | SNullOr s' => s' | _ => SAny end.
+Definition field_eqb (a b : bytes * bool) : bool := bytes_eqb (fst a) (fst b) && Bool.eqb (snd a) (snd b).
+Definition same_fields (a b : list (bytes * bool)) : bool :=
+  Nat.eqb (length a) (length b)
+  && forallb (fun x => existsb (field_eqb x) b) a && forallb (fun x => existsb (field_eqb x) a) b.
+Definition no_curve : curve := {| c_slen := 0; c_plen := 0; c_q := 0 |}.
+
+Definition dto_table : list (schema * list (bytes * bool)) :=
+  [ (schema_of TThreshold, dto_threshold);
+    (schema_of TUnanimity, dto_unanimity);
+    (schema_of TCnf, dto_cnf);
+    (schema_of THierarchical, dto_hierarchical);
+    (s_elem (s_field k_levels (schema_of THierarchical)), dto_hierarchical_level);
+    (schema_of TBoolexpr, dto_boolexpr);
+    (s_field k_root (schema_of TBoolexpr), dto_boolexpr_node);
+    (schema_of (TMsp no_curve), dto_msp);
+    (schema_of (TKwShare no_curve), dto_kwshare);
+    (schema_of (TLifted no_curve), dto_feldman_lifted);
+    (schema_of (TFeldmanVV no_curve), dto_feldman_vv);
+    (schema_of (TBasePublic no_curve), dto_basepublic);
+    (schema_of (TBaseShard no_curve true), dto_baseshard);
+    (schema_of (TEcdsaSig no_curve), dto_ecdsasig);
+    (schema_of (TDklsPartial no_curve), dto_dkls23partial);
+    (schema_of (TMatrix no_curve), dto_matrix);
+    (schema_of (TMvMatrix no_curve), dto_mvmatrix);
+    (schema_of (TSqMatrix no_curve), dto_sqmatrix);
+    (schema_of TNat, dto_num_nat);
+    (s_field k_nat (schema_of TNat), dto_numct_nat);
+    (schema_of TInt, dto_num_int);
+    (s_field k_int (schema_of TInt), dto_numct_int);
+    (schema_of TNatPlus, dto_num_natplus);
+    (schema_of (TScalar no_curve), dto_k256_scalar);
+    (schema_of (TScalar no_curve), dto_p256_scalar);
+    (schema_of (TScalar no_curve), dto_bls12381_scalar);
+    (schema_of (TPoint no_curve), dto_k256_point);
+    (schema_of (TPoint no_curve), dto_p256_point);
+    (schema_of (TPoint no_curve), dto_bls12381_g1) ].
+
+Theorem dto_fields_agree :
+  forallb (fun p : schema * list (bytes * bool) => same_fields (struct_fields (fst p)) (snd p)) dto_table = true.
+Proof. vm_compute. reflexivity. Qed.
 
 (* ------------------------------------------------------------------ *)
 (* the configuration regenerated from serde.go is the strict one the model describes *)
